@@ -190,7 +190,7 @@ def encode_int(dt, enc, n, bp, hl):
         return
     H.cover("accepted")
     H.check("C04:rejections-are-odxtools-errors-never-foreign-exceptions", True)
-    H.check("C04:accepted-implies-representable", W.repr_ok(dt, enc, n, v))
+    H.check("C01,C04:accepted-implies-representable", W.repr_ok(dt, enc, n, v))
     H.assume(W.repr_ok(dt, enc, n, v))
     _check_encoded_group(es, old_msg, old_mask, cur, origin, dt, n, bp, hl, W.raw(dt, enc, n, v))
 
@@ -240,7 +240,7 @@ def bcd_decode_helper(enc):
     H.check("bcd-decode-helper-agrees-with-call-site-contract", r == W.val("A_UINT32", enc, 64, value))
 
 
-@harness(props=["C02", "C03", "C05", "C08"], strength="E", family=int_family,
+@harness(props=["C01", "C02", "C03", "C05", "C08"], strength="E", family=int_family,
          functions=[DecodeState.extract_atomic_value], covers=["decoded", "too-short"], assumes=["A-bitstruct"],
          use_contracts=["bcd"])
 def decode_int(dt, enc, n, bp, hl):
@@ -268,7 +268,7 @@ def decode_int(dt, enc, n, bp, hl):
     H.check("C05:truncated-pdu-is-rejected-not-completed", cur + L <= len(msg))
     H.assume(cur + L <= len(msg))
     R = _field_content_from_pdu(msg, cur, dt, n, bp, hl)
-    H.check("C02:decoded-value-is-the-value-of-the-described-bits", v == W.val(dt, enc, n, R))
+    H.check("C01,C02,C03:decoded-value-is-the-value-of-the-described-bits", v == W.val(dt, enc, n, R))
     H.check("C02,C08:cursor-advances-by-the-static-byte-length",
             H.And(ds.cursor_byte_position == cur + L, ds.cursor_bit_position == 0))
     H.check("C02:origin-unchanged", ds.origin_byte_position == origin)
@@ -330,7 +330,7 @@ def encode_float(dt, n, bp, hl):
         _check_encoded_group(es, old_msg, old_mask, cur, origin, dt, n, bp, hl, H.float_bits(v, n))
 
 
-@harness(props=["C02", "C03", "C05", "C08"], strength="E", family=float_family,
+@harness(props=["C01", "C02", "C03", "C05", "C08"], strength="E", family=float_family,
          functions=[DecodeState.extract_atomic_value], covers=["decoded", "too-short"],
          assumes=["A-bitstruct", "A-float"])
 def decode_float(dt, n, bp, hl):
@@ -359,7 +359,7 @@ def decode_float(dt, n, bp, hl):
     H.check("C05:truncated-pdu-is-rejected-not-completed", cur + L <= len(msg))
     H.assume(cur + L <= len(msg))
     R = _field_content_from_pdu(msg, cur, dt, n, bp, hl)
-    H.check("C02:decoded-value-is-the-value-of-the-described-bits", v == H.float_of_bits(R, n))
+    H.check("C01,C02,C03:decoded-value-is-the-value-of-the-described-bits", v == H.float_of_bits(R, n))
     H.check("C02,C08:cursor-advances-by-the-static-byte-length",
             H.And(ds.cursor_byte_position == cur + L, ds.cursor_bit_position == 0))
 
@@ -394,7 +394,7 @@ def encode_bytefield(enc, n, hl):
         return
     H.cover("accepted")
     H.check("C04:rejections-are-odxtools-errors-never-foreign-exceptions", True)
-    H.check("C04:accepted-implies-exact-length-no-padding-no-truncation", 8 * len(v) == n)
+    H.check("C01,C04:accepted-implies-exact-length-no-padding-no-truncation", 8 * len(v) == n)
     H.assume(8 * len(v) == n)
     L = n // 8
     new, new_mask = es.coded_message, es.used_mask
@@ -412,7 +412,7 @@ def encode_bytefield(enc, n, hl):
             H.eq(H.warnings(OdxWarning) > 0, H.Not(H.eq(ext_mask[cur:cur + L], b"\x00" * L))))
 
 
-@harness(props=["C02", "C03", "C05", "C08"], strength="E", family=bytes_family,
+@harness(props=["C01", "C02", "C03", "C05", "C08"], strength="E", family=bytes_family,
          functions=[DecodeState.extract_atomic_value], covers=["decoded", "too-short"], assumes=["A-bitstruct"])
 def decode_bytefield(enc, n, hl):
     """extract_atomic_value, A_BYTEFIELD: DecodeError iff too short, else exactly the n/8 described bytes"""
@@ -435,7 +435,7 @@ def decode_bytefield(enc, n, hl):
     H.check("C05:truncated-pdu-is-rejected-not-completed", cur + L <= len(msg))
     H.assume(cur + L <= len(msg))
     if n % 8 == 0:
-        H.check("C02:decoded-value-is-the-value-of-the-described-bits", H.eq(v, msg[cur:cur + L]))
+        H.check("C01,C02,C03:decoded-value-is-the-value-of-the-described-bits", H.eq(v, msg[cur:cur + L]))
     H.check("C02,C08:cursor-advances-by-the-static-byte-length",
             H.And(ds.cursor_byte_position == cur + L, ds.cursor_bit_position == 0))
 
